@@ -269,11 +269,11 @@ pub fn run(ctx: &Ctx) -> Report {
     if rep.has_violation() {
         return rep;
     }
-    rep.add(run_part(ctx, "random-fragments", ctx.cases(200_000, 5_000_000), strategy_fragments, check, &[]));
+    rep.add(run_part(ctx, "random-fragments", ctx.cases(2_000_000, 60_000_000), strategy_fragments, check, &[]));
     if rep.has_violation() {
         return rep;
     }
-    rep.add(run_part(ctx, "random-bytes", ctx.cases(200_000, 5_000_000), strategy_bytes, check, &[]));
+    rep.add(run_part(ctx, "random-bytes", ctx.cases(2_000_000, 60_000_000), strategy_bytes, check, &[]));
     rep
 }
 
